@@ -61,7 +61,18 @@ OPS_ALL = OPS_PD + list(range(0x10, 0x1c)) + list(range(0x20, 0x2c)) + list(rang
 FX1 = 65536
 IDENT = [FX1, 0, 0, FX1, 0, 0]
 CONFIGS_QUICK = ["fast mmx sse2 ssse3", "", "ssse3", "sse2 ssse3", "mmx sse2 ssse3", "wholeops"]
-CONFIGS_MORE = ["sse2", "mmx", "wholeops fast mmx sse2 ssse3", "fast", "fast mmx", "wholeops ssse3"]
+def _all_configs():
+    names = ["fast", "mmx", "sse2", "ssse3"]
+    out = []
+    for mask in range(16):
+        sub = [n for i, n in enumerate(names) if mask >> i & 1]
+        for wo in (False, True):
+            out.append(" ".join((["wholeops"] if wo else []) + sub))
+    return out
+
+
+# thorough tier: every subset of {fast, mmx, sse2, ssse3} with and without wholeops (32 configurations)
+CONFIGS_MORE = [c for c in _all_configs() if c not in CONFIGS_QUICK]
 
 
 def creq(op, sf, sw, sh, srep, sfilt, t, mf, mw, mh, mrep, mca, df, dw, dh, sx, sy, mx, my, dx, dy, w, h, seed,
@@ -360,7 +371,7 @@ def run_c02(args):
     exe, px = vf.build_driver("drv_dispatch", "plain", cflags=["-pthread"])
     chk.extra["build"] = px["hash"]
     configs = CONFIGS_QUICK + ([] if quick else CONFIGS_MORE)
-    reqs = gen_requests(rng, 500 if quick else 8000)
+    reqs = gen_requests(rng, 500 if quick else 2500)
     directed = table_directed_requests(rng, exe, wd, configs)
     if quick and len(directed) > 1100:
         directed = rng.sample(directed, 1100)
